@@ -119,6 +119,14 @@ func dataText(gen int) string {
 		w("+wrr." + z + ",1.1.1.1,180,,,4321")
 		w("+wrr." + z + ",1.1.1.2,180,,,1234")
 		w("+wrr." + z + ",1.1.1.3,180,,,5678")
+		// several A and AAAA records of positive weight: answers with max answer > 1 carry
+		// two or more addresses (the weighted selection shuffles them)
+		for i := 1; i <= 5; i++ {
+			w(fmt.Sprintf("+multi.%s,3.3.%d.%d,180,,,%d", z, gen, i, 100*i))
+			w(fmt.Sprintf("+multi.%s,fd24:7859:f076:3333::%d:%d,180,,,%d", z, gen, i, 100*i))
+			w(fmt.Sprintf("+multi4.%s,4.4.%d.%d,180,,\\000\\002,%d", z, gen, i, 50*i))
+			w(fmt.Sprintf("+multi4.%s,4.5.%d.%d,180,,\\000\\001,%d", z, gen, i, 50*i))
+		}
 		w("Cwww2." + z + ",bar." + z + ",3600,,")
 		w("C*." + z + ",bar." + z + ",1800,,")
 		w("@" + z + ",,mx." + z + ",10,300")
@@ -208,9 +216,11 @@ var (
 	names = []string{"www.example.com.", "bar.example.com.", "wrr.example.com.", "www2.example.com.", "nx.example.com.",
 		"h7.example.com.", "h99.example.net.", "www.example.net.", "deep.sub.example.com.", "example.com.", "other.org.",
 		"a.ns.example.com.", "x.y.z.example.net."}
-	qtypes  = []uint16{dns.TypeA, dns.TypeAAAA, dns.TypeNS, dns.TypeSOA, dns.TypeMX, dns.TypeCNAME, dns.TypeTXT, dns.TypeDS}
-	clients = []string{"10.1.2.3", "10.2.9.9", "192.0.2.1", "fd00:1::5", "2001:db8::1"}
-	subnets = []string{"", "", "10.1.5.0/24", "10.2.0.0/16", "fd00:1:2::/48", "203.0.113.0/24"}
+	multiNames = []string{"multi.example.com.", "multi.example.net.", "multi4.example.com.", "wrr.example.com.", "wrr.example.net."}
+	maxAnswers = []int{1, 2, 3, 8}
+	qtypes     = []uint16{dns.TypeA, dns.TypeAAAA, dns.TypeNS, dns.TypeSOA, dns.TypeMX, dns.TypeCNAME, dns.TypeTXT, dns.TypeDS}
+	clients    = []string{"10.1.2.3", "10.2.9.9", "192.0.2.1", "fd00:1::5", "2001:db8::1"}
+	subnets    = []string{"", "", "10.1.5.0/24", "10.2.0.0/16", "fd00:1:2::/48", "203.0.113.0/24"}
 )
 
 // mkQuery draws one question.  Besides the known names / types it keeps producing values the
@@ -228,7 +238,16 @@ func mkQuery(r *hlib.Rng) *dns.Msg {
 			}
 		}
 	}
-	req.SetQuestion(names[r.Intn(len(names))], qt)
+	nm := names[r.Intn(len(names))]
+	if r.Chance(1, 4) {
+		// a name with several weighted addresses, asked for an address type
+		nm = multiNames[r.Intn(len(multiNames))]
+		qt = dns.TypeA
+		if r.Chance(1, 2) {
+			qt = dns.TypeAAAA
+		}
+	}
+	req.SetQuestion(nm, qt)
 	if r.Chance(1, 6) {
 		req.Question[0].Qclass = uint16(5 + r.Intn(65000)) // no mnemonic (CLASSnnnn), or NONE / ANY
 	}
@@ -384,7 +403,7 @@ func runChild(sc Scenario, pjson string) {
 						}
 					}()
 					req := mkQuery(r)
-					ctx := context.WithValue(dnsserver.WithMaxAnswer(context.Background(), 1+r.Intn(3)), gateKey{}, g)
+					ctx := context.WithValue(dnsserver.WithMaxAnswer(context.Background(), maxAnswers[r.Intn(len(maxAnswers))]), gateKey{}, g)
 					rec := dnstest.NewRecorder(&test.ResponseWriterCustomRemote{RemoteIP: clients[r.Intn(len(clients))]})
 					if sc.Windows {
 						h.ServeDNS(ctx, rec, req)
